@@ -15,7 +15,7 @@ pub enum Case {
     Model {
         lp: Lp,
         layout: Layout,
-        /// 0 = load_raw_reader, 1 = load_zipped_reader, 2 = load_file (gzip on disk)
+        /// 0 = load_raw_reader, 1 = load_zipped_reader, 2 = load_file (gzip on disk, *.mps.gz), 3 = load_file_bytes + decode (*.mps), 4 = load_file (*.mps)
         reader: u8,
     },
     /// a complete file text that must be rejected
@@ -49,8 +49,24 @@ fn load(text: &str, reader: u8) -> Result<Result<v1::Instance, String>, String> 
             let z = gz(text);
             sdk(|| ommx::mps::load_zipped_reader(z.as_slice()).map_err(|e| format!("{e}")))
         }
-        _ => {
+        2 => {
             let p = scratch_file("in.mps.gz");
+            std::fs::write(&p, gz(text)).expect("ENGINE: scratch write");
+            sdk(|| ommx::mps::load_file(&p).map_err(|e| format!("{e}")))
+        }
+        3 => {
+            // the bytes entry point (used by the Python binding): must decode to the instance;
+            // the file name carries no .gz suffix (the content, not the name, says it is gzip)
+            use ommx::Message;
+            let p = scratch_file("in.mps");
+            std::fs::write(&p, gz(text)).expect("ENGINE: scratch write");
+            sdk(|| {
+                let bytes = ommx::mps::load_file_bytes(&p).map_err(|e| format!("{e}"))?;
+                v1::Instance::decode(bytes.as_slice()).map_err(|e| format!("load_file_bytes returned bytes that do not decode as an instance: {e}"))
+            })
+        }
+        _ => {
+            let p = scratch_file("model.mps");
             std::fs::write(&p, gz(text)).expect("ENGINE: scratch write");
             sdk(|| ommx::mps::load_file(&p).map_err(|e| format!("{e}")))
         }
@@ -77,7 +93,7 @@ pub fn check_case(l: &mut Local, case: &Case) {
         Case::Fault { what, text } => {
             l.nontrivial += 1;
             l.outcome(what);
-            for reader in [0u8, 1] {
+            for reader in [0u8, 1, 3] {
                 match load(text, reader) {
                     Err(p) => l.violation(&format!("fault/{what}/panic"), || json!(case), format!("panicked instead of returning an error: {p}")),
                     Ok(Ok(_)) => l.violation(&format!("fault/{what}/accepted"), || json!(case), format!("malformed file ({what}) was loaded without error")),
@@ -442,7 +458,7 @@ pub fn run(ctx: &Ctx) -> Finish {
     let cols: Vec<(bool, Vec<(String, Option<f64>)>)> = [false, true].iter().flat_map(|m| bounds.iter().map(move |b| (*m, b.clone()))).collect();
     let lays = layouts();
     let styles = name_styles();
-    ctx.note("alphabet", json!({"row_specs": rows.len(), "column_specs": cols.len(), "layouts": lays.len(), "name_styles": styles.len(), "senses": SENSES.len(), "readers": 3}));
+    ctx.note("alphabet", json!({"row_specs": rows.len(), "column_specs": cols.len(), "layouts": lays.len(), "name_styles": styles.len(), "senses": SENSES.len(), "readers": 5}));
     // 1. one row x one column: full product with every layout, sense, name style, reader, objective constant, sparsity
     let n1 = rows.len() * cols.len();
     ctx.par(n1, |l, i| {
@@ -453,8 +469,8 @@ pub fn run(ctx: &Ctx) -> Finish {
                 for (li, lay) in lays.iter().enumerate() {
                     for (ki, sense) in SENSES.iter().enumerate() {
                         // readers and sparsity rotate over the (layout, sense) grid: each value meets each row/column spec
-                        let reader = ((li + ki + si) % 3) as u8;
-                        if reader == 2 && !t && (i + li) % 4 != 0 {
+                        let reader = ((li + ki + si) % 5) as u8;
+                        if reader >= 2 && ctx.tier != Tier::Thorough && (i + li + ki) % 3 != 0 {
                             continue;
                         }
                         let sparsity = (li + 2 * ki + si) % 4;
@@ -508,7 +524,7 @@ pub fn run(ctx: &Ctx) -> Finish {
         for st in &styles {
             for lay in &lays {
                 for sense in SENSES {
-                    for reader in 0..3u8 {
+                    for reader in 0..5u8 {
                         for sparsity in 0..4 {
                             l.states += 1;
                             check_case(l, &Case::Model { lp: make_lp(&r5, &c6, Some(5.0), sense, st, sparsity), layout: *lay, reader });
@@ -535,9 +551,9 @@ pub fn run(ctx: &Ctx) -> Finish {
     ctx.assume("Outside the alphabet because the property does not fix their meaning: UP 0 without LO, RANGES value 0, a second N row, RHS on an undeclared row, OMMX_VAR_x names that do not parse as ids, negative UI without lower bound.");
     Finish {
         level: "model_checking",
-        rule: "abstract LP/MIP models rendered by the harness's own free-format MPS writer and loaded by the real readers: full product of 27 row specs (E/L/G x range none/+/- x rhs none/+/-) x 50 column specs (integer marker x 25 bound specs incl. UP, negative UP, LO, LO+UP in both orders, FX, MI, PL, FR, BV, LI, UI, MI+UP, LI+UI, upper bound exactly 1 with lower bound 0 / 1 / -1 / absent, FX 0 and 1) for one row and one column under every layout (3/5-field lines, comments, blank lines, wide separators), sense form, name style, objective constant and reader; two rows x two columns (full product in thorough); a fixed 5x6 model under all layouts; expected instance computed from the abstract model and compared by name (binary kind only for BV columns or integral [0,1] columns); fault files for every error keyword at every applicable position; non-trivial = model has rows / fault case".into(),
-        bounds: json!({"rows_max": 5, "cols_max": 6, "full_product": if t { "1x1 and 2x2" } else { "1x1; 2x2 pairwise" }}),
-        exhaustive: t,
+        rule: "abstract LP/MIP models rendered by the harness's own free-format MPS writer and loaded by the real readers: full product of 27 row specs (E/L/G x range none/+/- x rhs none/+/-) x 50 column specs (integer marker x 25 bound specs incl. UP, negative UP, LO, LO+UP in both orders, FX, MI, PL, FR, BV, LI, UI, MI+UP, LI+UI, upper bound exactly 1 with lower bound 0 / 1 / -1 / absent, FX 0 and 1) for one row and one column under every layout (3/5-field lines, comments, blank lines, wide separators), sense form, name style, objective constant and reader (raw, zipped, load_file on *.mps.gz and *.mps, load_file_bytes + decode; the file-based ones on a third of the grid in quick); two rows x two columns (full product in thorough); a fixed 5x6 model under all layouts; expected instance computed from the abstract model and compared by name (binary kind only for BV columns or integral [0,1] columns); fault files for every error keyword at every applicable position; non-trivial = model has rows / fault case".into(),
+        bounds: json!({"rows_max": 5, "cols_max": 6, "full_product": if t { "1x1 and 2x2" } else { "1x1; 2x2 pairwise" }, "file_based_readers": if ctx.tier == Tier::Thorough { "every grid point they rotate onto" } else { "a third of those grid points" }}),
+        exhaustive: ctx.tier == Tier::Thorough,
     }
 }
 
